@@ -156,6 +156,29 @@ class Program:
     def const(self, path):
         return self.consts[path]['value']
 
+    def fingerprint(self, path):
+        """hash of a body modulo source positions: two closures with the same code get the same
+        fingerprint (used to value-number `iter().any(|m| *m == C)` written twice)"""
+        fp = self._fp.get(path) if hasattr(self, '_fp') else None
+        if fp is not None:
+            return fp
+        if not hasattr(self, '_fp'):
+            self._fp = {}
+        b = self.bodies.get(path)
+        if b is None:
+            return path
+        import hashlib
+
+        def strip(o):
+            if isinstance(o, dict):
+                return {k: strip(v) for k, v in sorted(o.items()) if k not in ('span', 'fn_span', 'closure', 'ty')}
+            if isinstance(o, list):
+                return [strip(v) for v in o]
+            return o
+        h = hashlib.sha1(json.dumps([strip(b.blocks), b.arg_count, [l['ty'] for l in b.locals[2:b.arg_count + 1]]], sort_keys=True).encode()).hexdigest()[:16]
+        self._fp[path] = 'fp:' + h
+        return self._fp[path]
+
     def body(self, path):
         return self.bodies.get(path)
 
